@@ -387,3 +387,46 @@ impl Sub for RowsScale {
         Ok(())
     }
 }
+
+// ---------------------------------------------------------------------------------------------
+// C13 at scale: more than 2^16 nodes starting (and ending) at one position
+
+pub struct ReorderScale;
+
+impl Sub for ReorderScale {
+    type Case = ScaleCase;
+    fn name(&self) -> &'static str {
+        "reorder_scale"
+    }
+    fn max_shrink_iters(&self) -> u32 {
+        60
+    }
+    fn strategy(&self, _tier: Tier) -> BoxedStrategy<ScaleCase> {
+        scale_case().prop_map(|mut c| {
+            c.user_part = 0; // the reorder tool works on the system dictionary
+            c
+        }).boxed()
+    }
+    fn rule(&self) -> String {
+        "the compact cases of C02's scale sub-check without a user lexicon (65533..65541 / 131069..131075 nodes starting and ending at the one 'a' of each sentence, as homographs, words from three starts or unknown entries), \
+         lines: every sentence once, an empty line, the first two again; oracle: the 'reorder' oracle (id order and probabilities equal the reference recount after every line; the lists are accepted by the mapping function); \
+         non-trivial = more than 65535 nodes start at one position; distinct = hash(case)".into()
+    }
+    fn check(&self, case: &ScaleCase, ctx: &mut Ctx) -> Result<(), String> {
+        let base = case.expand();
+        let n = base.sentences.len();
+        let mut lines: Vec<usize> = (0..n).collect();
+        lines.push(usize::MAX);
+        lines.push(0);
+        lines.push(1);
+        let rc = crate::props::c13::ReorderCase { base, lines };
+        crate::props::c13::Reorder.check(&rc, ctx)?;
+        let total = u64::from(case.n_lex) + u64::from(case.n_unk);
+        ctx.label_if(total > 65_535, "more_than_65535_nodes_start_at_one_position");
+        ctx.label_if(case.spread == 3, "three_starts_one_end");
+        if total > 65_535 {
+            ctx.nontrivial(case);
+        }
+        Ok(())
+    }
+}
